@@ -40,6 +40,12 @@ theorem renumber_append (tr : Bool) (t : Str) (l1 l2 : List Item) (k : Nat) :
     · rw [renumber_cons_out _ _ _ _ _ hg, renumber_cons_out _ _ _ _ _ hg, ih k]
       simp [hg]
 
+theorem countGroup_eq_origs' (tr : Bool) (t : Str) (l : List Item) :
+    countGroup tr t l = ((l.map (·.orig)).filter (fun o => cmpStr tr (useful o) t)).length := by
+  unfold countGroup
+  rw [List.filter_map, List.length_map]
+  rfl
+
 theorem countGroup_append (tr : Bool) (t : Str) (l1 l2 : List Item) :
     countGroup tr t (l1 ++ l2) = countGroup tr t l1 + countGroup tr t l2 := by
   unfold countGroup
@@ -79,5 +85,158 @@ theorem foldl_append_canonical (tr : Bool) (l : List Item) (h : Canonical ⟨l, 
     l.foldl Section.append ⟨[], tr⟩ = ⟨l, tr⟩ := by
   have := foldl_append_canonical_from tr [] l (by simpa using h)
   simpa using this
+
+/-! ### `Canonical` in terms of the members of each group; preservation by `append` / `insert` -/
+
+/-- the members of the group of `t`, numbered from `k`, carry the session names `useful:k+1`, `useful:k+2`, … -/
+def GroupNumbered (tr : Bool) (t : Str) (l : List Item) (k : Nat) : Prop :=
+  ∀ p ∈ (l.filter (inGroup tr t)).zipIdx k, p.1.session = useful p.1.orig ++ ':' :: natToStr (p.2 + 1)
+
+theorem item_session_ext (a : Item) (x : Str) : ({ a with session := x } : Item) = a ↔ x = a.session := by
+  cases a
+  simp
+
+theorem renumber_fix_iff (tr : Bool) (t : Str) (l : List Item) (k : Nat) :
+    renumber tr t l k = l ↔ GroupNumbered tr t l k := by
+  induction l generalizing k with
+  | nil => simp [renumber, GroupNumbered]
+  | cons a rest ih =>
+    by_cases hg : cmpStr tr (useful a.orig) t = true
+    · have hin : inGroup tr t a = true := hg
+      rw [renumber_cons_in _ _ _ _ _ hg]
+      unfold GroupNumbered
+      rw [List.filter_cons, if_pos hin, List.zipIdx_cons]
+      simp only [List.cons.injEq, List.mem_cons, forall_eq_or_imp]
+      rw [ih (k + 1), item_session_ext]
+      unfold GroupNumbered
+      constructor
+      · rintro ⟨h1, h2⟩; exact ⟨h1.symm, h2⟩
+      · rintro ⟨h1, h2⟩; exact ⟨h1.symm, h2⟩
+    · have hin : ¬ inGroup tr t a = true := hg
+      rw [renumber_cons_out _ _ _ _ _ hg]
+      unfold GroupNumbered
+      rw [List.filter_cons, if_neg hin]
+      simp only [List.cons.injEq, true_and]
+      rw [ih k]
+      rfl
+
+theorem canonical_iff (s : Section) :
+    Canonical s ↔ ∀ t, 1 < countGroup s.tr t s.items → GroupNumbered s.tr t s.items 0 := by
+  unfold Canonical Section.assignSuffixes
+  constructor
+  · intro h t hc
+    have := h t
+    have hc' : countGroup s.tr t s.items > 1 := hc
+    simp only [hc', if_true] at this
+    rw [← renumber_fix_iff]
+    have := congrArg Section.items this
+    simpa using this
+  · intro h t
+    by_cases hc : countGroup s.tr t s.items > 1
+    · simp only [hc, if_true]
+      have := (renumber_fix_iff s.tr t s.items 0).mpr (h t hc)
+      rw [this]
+    · simp [hc]
+
+theorem inGroup_congr (tr : Bool) (t u : Str) (h : ckey tr t = ckey tr u) : inGroup tr t = inGroup tr u := by
+  funext it
+  unfold inGroup
+  rw [cmpStr_eq_ckey, cmpStr_eq_ckey, h]
+
+theorem renumber_filter_other (tr : Bool) (t u : Str) (h : ckey tr t ≠ ckey tr u) (l : List Item) (k : Nat) :
+    (renumber tr u l k).filter (inGroup tr t) = l.filter (inGroup tr t) := by
+  induction l generalizing k with
+  | nil => simp [renumber]
+  | cons a rest ih =>
+    by_cases hg : cmpStr tr (useful a.orig) u = true
+    · rw [renumber_cons_in _ _ _ _ _ hg]
+      have hnot : ∀ x : Str, ¬ inGroup tr t ({ a with session := x } : Item) = true := by
+        intro x hx
+        unfold inGroup at hx
+        rw [cmpStr_true_iff] at hx hg
+        exact h (hx.symm.trans hg)
+      have hnot' : ¬ inGroup tr t a = true := by
+        have := hnot a.session
+        cases a
+        simpa using this
+      rw [List.filter_cons, if_neg (hnot _), List.filter_cons, if_neg hnot', ih]
+    · rw [renumber_cons_out _ _ _ _ _ hg, List.filter_cons, List.filter_cons, ih]
+
+theorem groupNumbered_of_zipIdx (F : List Item) (k : Nat) :
+    ∀ p ∈ ((F.zipIdx k).map (fun p => withSuffix p.1 (p.2 + 1))).zipIdx k,
+      p.1.session = useful p.1.orig ++ ':' :: natToStr (p.2 + 1) := by
+  induction F generalizing k with
+  | nil => simp
+  | cons a rest ih =>
+    rw [List.zipIdx_cons, List.map_cons, List.zipIdx_cons]
+    intro p hp
+    rcases List.mem_cons.mp hp with rfl | hp
+    · rfl
+    · exact ih (k + 1) p hp
+
+theorem countGroup_insert (tr : Bool) (t : Str) (l1 l2 : List Item) (it : Item) :
+    countGroup tr t (l1 ++ it :: l2) = countGroup tr t (l1 ++ l2) + (if inGroup tr t it then 1 else 0) := by
+  rw [countGroup_append, countGroup_append, countGroup_cons]
+  unfold inGroup
+  omega
+
+theorem filter_insert_other (tr : Bool) (t : Str) (l1 l2 : List Item) (it : Item) (h : ¬ inGroup tr t it = true) :
+    (l1 ++ it :: l2).filter (inGroup tr t) = (l1 ++ l2).filter (inGroup tr t) := by
+  rw [List.filter_append, List.filter_append, List.filter_cons, if_neg h]
+
+/-- putting ANY item between two halves of a canonical section and re-suffixing its group gives a canonical
+section (the common core of `append` and `insert`) -/
+theorem canonical_insert_assign (tr : Bool) (l1 l2 : List Item) (it : Item) (h : Canonical ⟨l1 ++ l2, tr⟩) :
+    Canonical ((⟨l1 ++ it :: l2, tr⟩ : Section).assignSuffixes (useful it.orig)) := by
+  rw [canonical_iff] at h ⊢
+  simp only [] at h
+  rw [assign_tr]
+  simp only []
+  intro t hc
+  have horigs := assign_origs ⟨l1 ++ it :: l2, tr⟩ (useful it.orig)
+  have hcount : countGroup tr t ((⟨l1 ++ it :: l2, tr⟩ : Section).assignSuffixes (useful it.orig)).items =
+      countGroup tr t (l1 ++ it :: l2) := by
+    rw [countGroup_eq_origs', countGroup_eq_origs']
+    have ho : ((⟨l1 ++ it :: l2, tr⟩ : Section).assignSuffixes (useful it.orig)).items.map (·.orig) =
+        (l1 ++ it :: l2).map (·.orig) := horigs
+    rw [ho]
+  rw [hcount] at hc
+  have hit : inGroup tr (useful it.orig) it = true := cmpStr_refl _ _
+  by_cases hk : ckey tr t = ckey tr (useful it.orig)
+  · -- the group that was re-suffixed
+    have hgrp := inGroup_congr tr t _ hk
+    have hcu : countGroup tr (useful it.orig) (l1 ++ it :: l2) > 1 := by
+      have : countGroup tr (useful it.orig) (l1 ++ it :: l2) = countGroup tr t (l1 ++ it :: l2) := by
+        unfold countGroup
+        congr 1
+        apply List.filter_congr
+        intro x _
+        rw [cmpStr_eq_ckey, cmpStr_eq_ckey, hk]
+      omega
+    unfold Section.assignSuffixes
+    simp only [hcu, if_true]
+    unfold GroupNumbered
+    rw [hgrp, renumber_filter_in]
+    exact groupNumbered_of_zipIdx _ 0
+  · -- another group: untouched, and the new item does not belong to it
+    have hnot : ¬ inGroup tr t it = true := by
+      intro hx
+      unfold inGroup at hx
+      rw [cmpStr_true_iff] at hx
+      exact hk hx.symm
+    have hfilter : (((⟨l1 ++ it :: l2, tr⟩ : Section).assignSuffixes (useful it.orig)).items).filter (inGroup tr t) =
+        (l1 ++ l2).filter (inGroup tr t) := by
+      unfold Section.assignSuffixes
+      split
+      · simp only []
+        rw [renumber_filter_other tr t _ hk, filter_insert_other tr t l1 l2 it hnot]
+      · exact filter_insert_other tr t l1 l2 it hnot
+    have hc2 : 1 < countGroup tr t (l1 ++ l2) := by
+      rw [countGroup_insert] at hc
+      simp only [hnot, Bool.false_eq_true, if_false] at hc
+      simpa using hc
+    unfold GroupNumbered
+    rw [hfilter]
+    exact h t hc2
 
 end Lasio
